@@ -53,18 +53,25 @@ def translation_validate(case, bdir, seed):
     return dict(case=case.name, runs=n, feasible=feas, diffs=diffs)
 
 def replay_case(pid, case, result, bdir, extra_defs=()):
-    """counterexample -> inputs -> run the SAME harness natively against the REAL object code"""
-    inputs = trace_inputs(result['log'], case.harness)
-    if inputs is None: return dict(reproduced=False, why='no trace in log')
+    """counterexample(s) -> inputs -> run the SAME harness natively against the REAL object code.
+    CBMC prints one trace per failed property; up to 4 of them are replayed and the native failures are united."""
     c2 = Case(case.name + '_rp', case.fixture, case.harness, case.defs + list(extra_defs), native_defs=case.native_defs)
     exe = native_pair(c2, bdir, san=case.replay_san)
-    r = run_native(exe, inputs=inputs)
     want = {d for _, d in result.get('failed', [])}
-    got = set(r['fails'])
+    got = set(); runs = []; san = False; first = None
+    for k in range(min(4, max(1, len(want)))):
+        inputs = trace_inputs(result['log'], case.harness, k)
+        if inputs is None: break
+        if any(r['inputs'] == inputs for r in runs): continue
+        r = run_native(exe, inputs=inputs)
+        runs.append(dict(inputs=inputs, native_failed=sorted(set(r['fails'])), native_rc=r['rc'], sanitizer_report=r['san'], native_tail=r['out'][-800:]))
+        got |= set(r['fails']); san = san or r['san']
+        if first is None: first = r
+    if not runs: return dict(reproduced=False, why='no trace in log')
+    strip = lambda d: re.sub(r'^line \d+ ', '', d)
     rp = dict(property=pid, case=case.name, harness=os.path.relpath(case.harness, VERIF), fixture=case.fixture['name'],
-              fixture_cpp=os.path.relpath(case.fixture['cpp'], VERIF) if case.fixture['cpp'].startswith(VERIF) else case.fixture['cpp'],
-              defs=case.defs + list(extra_defs), inputs=inputs, cbmc_failed=sorted(want), native_failed=sorted(got),
-              native_rc=r['rc'], sanitizer_report=r['san'], native_tail=r['out'][-1200:])
+              defs=case.defs + list(extra_defs), fixture_defs=case.fixture.get('defs', []), runs=runs,
+              cbmc_failed=sorted(want), native_failed=sorted(got))
     os.makedirs(os.path.join(VERIF, 'replays', pid), exist_ok=True)
     path = os.path.join(VERIF, 'replays', pid, _safe(case.name) + '.json')
     json.dump(rp, open(path, 'w'), indent=1)
@@ -72,8 +79,9 @@ def replay_case(pid, case, result, bdir, extra_defs=()):
     # reproduced = the native run against the REAL object code shows a symptom: a harness assertion fails (same oracle
     # code as under CBMC; for CBMC built-in checks the harness-level symptom is a guard band / invariant assertion) or,
     # for sanitizer-enabled replays, an ASan/UBSan report
-    rp['reproduced'] = bool(got) or bool(r['san'] and case.replay_san)
-    rp['infeasible'] = r['infeasible']; rp['exhausted'] = r['exhausted']
+    rp['reproduced'] = bool(got) or bool(san and case.replay_san)
+    rp['reproduced_descs'] = sorted(d for d in want if strip(d) in got)
+    rp['native_rc'] = first['rc']; rp['infeasible'] = first['infeasible']; rp['exhausted'] = first['exhausted']
     return rp
 
 def match_known(known, pid, case_name, failed_descs):
